@@ -23,7 +23,9 @@ def c06_desc(rng, odd, big=False):
     top = rng.choice([2, 3, 5, 9, 17, 200, 255, 256, 256, 257, 300, 512, 512, 65536])
     packed = 1 if top <= 1 else top.bit_length()
     enum_w = 1 << (packed - 1).bit_length()
-    desc = {"enums": [{"name": "Mode", "vals": [("Off", 0), ("On", 1), ("Err", top)]}], "structs": [], "impls": []}
+    # (one schema in seven names the enum with a leading i: see the finding c-enum-name-i)
+    ename = rng.choice(["Mode"] * 6 + ["ignition", "idle_state", "iMode"][:1 + rng.randrange(3)][-1:])
+    desc = {"enums": [{"name": ename, "vals": [("Off", 0), ("On", 1), ("Err", top)]}], "structs": [], "impls": []}
     fields, total = [], 0
     for j in range(rng.randint(1, 8)):
         r = rng.random()
@@ -32,7 +34,7 @@ def c06_desc(rng, odd, big=False):
         elif r < 0.17:
             t, w = ("f64",), 64
         elif r < 0.38:
-            t, w = ("enum", "Mode"), enum_w
+            t, w = ("enum", ename), enum_w
         else:
             w = rng.choice([8, 8, 16, 32, 64]) if not (odd and rng.random() < 0.5) else rng.choice([1, 3, 4, 7, 12, 24, 33])
             t = (rng.choice(["u", "i"]), w)
@@ -51,7 +53,7 @@ def c06_desc(rng, odd, big=False):
     mid = rng.choice([0, 1, 2047, rng.randrange(2048)])
     sib = []
     for q in range(rng.choice([0, 0, 1, 2, 3])):
-        sf = [{"name": f"o{j}", "id": j, "type": rng.choice([("u", 8), ("u", 16), ("i", 32), ("enum", "Mode"), ("f32",)])} for j in range(rng.randint(1, 3))]
+        sf = [{"name": f"o{j}", "id": j, "type": rng.choice([("u", 8), ("u", 16), ("i", 32), ("enum", ename), ("f32",)] if not ename.startswith("i") else [("u", 8), ("u", 16), ("i", 32), ("f32",)])} for j in range(rng.randint(1, 3))]
         sib.append(({"name": f"Oth{q}", "fields": sf},
                     {"protocol": "can", "type": f"Oth{q}", "name": f"Oth{q}", "signals": [],
                      "fields": [("id", (mid + 1 + q) % 2048), ("device", rng.choice(["ecu", "ecu", "dash"]))] + ([("period", rng.choice([10, 100]))] if rng.random() < 0.3 else [])}))
@@ -185,9 +187,11 @@ def run(chk):
                 cases.append(cpair(sterm, iterm, "[]", obs)); meta.append((text, None))
                 chk.count((text, obs), nontrivial=len(pieces) >= 2, sample={"schema": text, "outcome": obs})
                 chk.hist("outcome", obs)
-                cls = "c-signed-odd-width" if (err[0] == "raise" and odd_i) else ("c-unsigned-odd-width" if (err[0] == "nocompile" and odd_u) else None)
+                enum_i = any(type(p.type) is T.EnumType and p.type.name.startswith("i") for p in pieces)
+                cls = "c-enum-name-i" if (err[0] == "raise" and enum_i and "KeyError('i')" in err[1]) else "c-signed-odd-width" if (err[0] == "raise" and odd_i) else ("c-unsigned-odd-width" if (err[0] == "nocompile" and odd_u) else None)
                 if cls and chk.find_known(cls):
-                    chk.known_finding(cls, {"c-signed-odd-width": "a signed field whose width is not 8/16/32/64 makes the C generator raise KeyError('i')",
+                    chk.known_finding(cls, {"c-enum-name-i": "an enum whose name begins with the letter i counts as a signed type (is_signed looks at the first letter of the type name) and makes the C generator raise KeyError('i')",
+                                            "c-signed-odd-width": "a signed field whose width is not 8/16/32/64 makes the C generator raise KeyError('i')",
                                             "c-unsigned-odd-width": "an unsigned field whose width is not 8/16/32/64 is emitted with the non-existent C type u<N>: the generated code does not compile"}[cls])
                 else:
                     fails.append({"kind": "generated-c-" + ("generator-raised" if err[0] == "raise" else "does-not-compile"), "schema": text, "error": err[1][-300:]})
